@@ -197,7 +197,10 @@ async def run_worker(loop, sc: dict, make=None, projector=inmem_projector, signa
     if sc.get("worker_without_results"):
         wconn = Connection(broker, ab, None)
         await wconn.connect()
-    workers = [Worker(graceful_shutdown_time=sc["worker"].get("grace_s", 1.0), handle_signals=[],
+    # a single worker keeps its default signal handling: stop requests reach it as a signal, through the handler it registers
+    # itself (several workers on one loop would overwrite each other's handlers: they are stopped through their runners)
+    sigkw = {} if nworkers == 1 and not sc.get("no_signals") else {"handle_signals": []}
+    workers = [Worker(graceful_shutdown_time=sc["worker"].get("grace_s", 1.0), **sigkw,
                       tasks_limit=sc["worker"].get("tasks_limit", 1000),
                       messages_limit=sc["worker"].get("messages_limit", 0) or float("inf"),
                       router_defaults=RouterDefaults(converter=conv), _connection=wconn) for _ in range(nworkers)]
@@ -416,9 +419,10 @@ async def run_worker(loop, sc: dict, make=None, projector=inmem_projector, signa
         state["stopped"] = True
         if not state.get("killed") and not state.get("selfstop"):        # (a dead process is not asked to stop: nothing is expected of it any more)
             rec.emit({"e": "stop", "dl": ("us", CLOCK.us + int(grace * 1e6) + SLACK_US), "gdl": ("us", CLOCK.us + int(grace * 1e6))})
-        for r in runners:
-            if which is None or r.verif_wno == which + 1:
-                r.sync_stop_wait_and_cancel(grace)
+        if not (nworkers == 1 and getattr(loop, "sig_handlers", None) and loop.deliver_signal()):
+            for r in runners:
+                if which is None or r.verif_wno == which + 1:
+                    r.sync_stop_wait_and_cancel(grace)
         if which is not None:       # the other workers go on until the horizon
             state["stopped"] = "partial"
         return True
